@@ -240,7 +240,7 @@ namespace OpenMEEG {
         bool selfIntersects = false;
         for (auto tit1=triangles().begin();tit1!=triangles().end();++tit1)
             for (auto tit2=tit1;tit2!=triangles().end();++tit2)
-                if (!tit1->contains(tit2->vertex(0)) && !tit1->contains(tit2->vertex(1)) && !tit1->contains(tit1->vertex(2)))
+                if (!tit1->contains(tit2->vertex(0)) && !tit1->contains(tit2->vertex(1)) && !tit1->contains(tit2->vertex(2)))
                     if (tit1->intersects(*tit2)) {
                         selfIntersects = true;
                         std::cout << "Triangles " << tit1->index() << " and " << tit2->index() << " are intersecting." << std::endl;
